@@ -62,6 +62,18 @@ class Instr:
         self.trace = []
         self.unknown_paths = []
         self.since_success = 0
+        self.exc = script.get('exc') or ['EMFILE']
+        self.nfail = 0
+
+    def injected(self, path):
+        """the exception of the next injected failure: the kinds listed in script['exc'], in rotation.
+        OSError(errno, ...) constructs the matching subclass (InterruptedError, BlockingIOError, ...)."""
+        kind = self.exc[self.nfail % len(self.exc)]
+        self.nfail += 1
+        if kind == 'plain':
+            return OSError('open failed (injected, no errno)')
+        code = getattr(errno, kind)
+        return OSError(code, os.strerror(code) + ' (injected)', str(path))
 
     def pid(self, path):
         key = os.path.basename(str(path))
@@ -85,7 +97,7 @@ class Instr:
             self.since_success += 1
             if self.since_success > 60:
                 raise Livelock('open() failed %d times in a row without write() giving up' % self.since_success)
-            raise OSError(errno.EMFILE, 'Too many open files (injected)', str(path))
+            raise self.injected(path)
         try:
             f = real(path, mode, *a, **kw)
         except OSError:
@@ -347,6 +359,13 @@ def shrink(n, job):
                 cur, progress = c, True
             else:
                 i += 1
+        if cur['script'].get('exc') not in (None, ['EMFILE']):
+            for alt in (['EMFILE'], [k for k in cur['script']['exc'] if k != 'EMFILE'][:1]):
+                sc = dict(cur['script']); sc['exc'] = alt
+                c = dict(cur); c['script'] = sc
+                if alt and c != cur and bad(c):
+                    cur, progress = c, True
+                    break
         for simpler in (lambda c: {'init': []}, lambda c: {'plain': []},
                         lambda c: {'ops': [[o[0], '%d;' % i, o[2]] for i, o in enumerate(c['ops'])]},
                         lambda c: {'ops': [[o[0], o[1], 0] for o in c['ops']]},
